@@ -1,11 +1,18 @@
-(* C19 - Feature switches are orthogonal: the Coq part (non-interference of features a program does not use). with_log/with_plans/with_serial/with_history cfg x = the configuration with that switch set to x; with_features sets all four; strip forgets the logger and its records, strip_h forgets previousTransition(); a program 'does not use' plans when its callbacks issue no succeed/fail/plan action (no_plan_oracle) and its history has no plan operation (no_plan_op), and 'does not use' transition history when it calls neither replayEnter nor replayTransition. 'Every combination compiles' and 'the shipped header equals the amalgamation' are decided by enumeration and byte comparison in the check, not here. *)
+(* C19 - Feature switches are orthogonal: the Coq part (non-interference of features a program does not use).
+   with_log/with_plans/with_serial/with_history cfg x = the configuration with that switch set to x; with_features sets
+   all four; strip forgets the logger and its records, strip_h forgets previousTransition(); a program 'does not use'
+   plans when its callbacks issue no succeed/fail/plan action (no_plan_oracle) and its history has no plan operation
+   (no_plan_op), and 'does not use' transition history when it calls neither replayEnter nor replayTransition. 'Every
+   combination compiles' and 'the shipped header equals the amalgamation' are decided by enumeration and byte
+   comparison in the check, not here. *)
 From Coq Require Import List Arith Bool NArith.
 From FFSM2 Require Import Model.TaskList Model.BitArray Model.BitStream Model.Plan Model.Ancestors Model.Machine
   Proofs.BitArrayProofs Proofs.MachineFrame Proofs.MachinePlan Proofs.MachineLife Proofs.GuardProofs Proofs.CycleProofs Proofs.PlanStep
   Proofs.SerialProofs Proofs.LogProofs Proofs.MachineTop Model.Multi Generated.InitFacts Proofs.ConstructProofs Proofs.LifeMonitor Proofs.ActivationRounds Proofs.IndexSafety Proofs.FeatureProofs.
 Import ListNotations.
 
-(* for every history that uses none of the features and every two settings of (plans, serialization, history, log mode, logger): same returns, and the same run once logger records and previousTransition() are forgotten *)
+(* for every history that uses none of the features and every two settings of (plans, serialization, history, log mode,
+   logger): same returns, and the same run once logger records and previousTransition() are forgotten *)
 Theorem C19_all_four_switches :
   forall (P : Type) (cfg : config) (orc orc' : oracle P),
          c_cap cfg <= 255 ->
@@ -121,7 +128,8 @@ Theorem C19_plans_from_any_idle_state :
 Proof. exact (plans_run_from_idle). Qed.
 Print Assumptions C19_plans_from_any_idle_state.
 
-(* for every history and every pair of log modes: forgetting the logger's records, the run with a logger equals the run without *)
+(* for every history and every pair of log modes: forgetting the logger's records, the run with a logger equals the run
+   without *)
 Theorem C19_logging_does_not_interfere :
   forall (P : Type) (cfg : config) (lm : logmode) (orc orc' : oracle P),
          log_blind P orc orc' ->
